@@ -6,6 +6,16 @@ V = os.path.dirname(os.path.dirname(os.path.abspath(__file__)))
 CHECKS = {
  'C01': ('exploration', 'model-generated diffs x unified-view option sets; independent terminal model + reserved-colour row tagging; every hunk line matched once, in order, inside its file section',
          'runtime monitor: reference input model + terminal-model oracle over generated executions of the real binary', '5/C01'),
+ 'C03': ('exploration', 'generated and structurally mutated inputs of every kind x hostile option sets accepted by delta, run on a build with overflow checks and debug assertions; monitors exit status, stderr, signals, consumption of stdin, peak RSS, bounded termination',
+         'runtime monitor: crash/hang/allocation oracle on the real binary built with overflow checks (sanitizer tiers in thorough)', '5/C03'),
+ 'C08': ('exploration', 'relational monitor over pairs of runs (real git --color=never/always and a synthetic colouriser covering git\'s layouts): byte equality; per-cell rendition equality for specially coloured and raw-styled lines',
+         'runtime monitor: relational (coloured vs plain) oracle + terminal-model cell comparison', '5/C08'),
+ 'C09': ('exploration', 'terminal-model state checked at every newline of every output row over a mixed workload (all views, wrapping/truncation forced, hyperlinks, pipe and pty)',
+         'runtime monitor: online terminal-state checker (SGR/OSC 8 balance, no split sequences)', '5/C09'),
+ 'C10': ('exploration', 'stdout(A1..An) compared byte-for-byte with the concatenation of stdout(Ai) for sequences of complete file sections, all ordered pairs of (kind, ending) shapes in the thorough tier; repeated fresh-process runs for determinism',
+         'runtime monitor: relational (concatenation / re-run) oracle over section histories', '5/C10'),
+ 'C19': ('exploration', 'pairs of runs with hyperlinks off/on: OSC-8-stripped bytes identical; every link closed on its line; file and commit link targets recomputed independently from the input model and the displayed numbers',
+         'runtime monitor: relational (hyperlinks on vs off) oracle + link-target reference model', '5/C19'),
 }
 NOT_APPLICABLE = {}
 
